@@ -61,6 +61,9 @@ func (o *Overloader) Name() string {
 // If overload, print error log and close the connection.
 func (o *Overloader) PostDial(sess erpc.PreSession, isRedial bool) *erpc.Status {
 	if isRedial {
+		// the session keeps the slot of its first dial; redialing has reset
+		// the session swap, so mark it again
+		sess.Swap().Store(connTakenKey{}, o)
 		return nil
 	}
 	return o.PostAccept(sess)
@@ -68,8 +71,12 @@ func (o *Overloader) PostDial(sess erpc.PreSession, isRedial bool) *erpc.Status 
 
 // PostAccept checks connection overload.
 // If overload, print error log and close the connection.
-func (o *Overloader) PostAccept(_ erpc.PreSession) *erpc.Status {
+// connTakenKey marks, in the session swap, a session that holds a connection slot.
+type connTakenKey struct{}
+
+func (o *Overloader) PostAccept(sess erpc.PreSession) *erpc.Status {
 	if o.takeConn() {
+		sess.Swap().Store(connTakenKey{}, o)
 		return nil
 	}
 	msg := fmt.Sprintf("connection overload, limit=%d, now=%d",
@@ -79,8 +86,14 @@ func (o *Overloader) PostAccept(_ erpc.PreSession) *erpc.Status {
 }
 
 // PostDisconnect releases connection count.
-func (o *Overloader) PostDisconnect(_ erpc.BaseSession) *erpc.Status {
-	o.releaseConn()
+func (o *Overloader) PostDisconnect(sess erpc.BaseSession) *erpc.Status {
+	// The disconnect hook also runs for a connection that was rejected by this
+	// or by another accept hook and therefore never took a slot:
+	// only a session that holds a slot gives it back, and only once.
+	if v, ok := sess.Swap().Load(connTakenKey{}); ok && v == o {
+		sess.Swap().Delete(connTakenKey{})
+		o.releaseConn()
+	}
 	return nil
 }
 
